@@ -55,6 +55,8 @@ def run(ctx):
         long_run(ctx, rng, tk)
     for i, rng in ctx.cases("end_to_end", ctx.n(6, 60)):
         end_to_end(ctx, rng, xr)
+    for i, rng in ctx.cases("end_to_end_params", ctx.n(16, 200)):
+        end_to_end_params(ctx, rng, xr)
 
 
 def judge(rec, tk, op, key, tt, fp, dpm, wspd, dt, kw, sample=False):
@@ -152,6 +154,47 @@ def long_run(ctx, rng, tk):
     fp = np.vstack([0.05 + 0.2 * (np.arange(T) % 2), 0.3 - 0.2 * (np.arange(T) % 2)])
     dpm = np.vstack([(np.arange(T) * 97.0) % 360, (np.arange(T) * 97.0 + 180) % 360])
     judge(rec, tk, "history_long", "long|T=%d|P=2|never-matching" % T, times(T), fp, dpm, np.full(T, 8.0), 3600.0, {})
+
+
+def end_to_end_params(ctx, rng, xr):
+    """The thresholds given to spec.partition.ptm1_track must be the ones used: a slowly varying sea
+    state keeps its identifiers under the defaults, and with a threshold made prohibitive (source
+    distance 1e12 m, direction windows 1e-6 deg, sea scaling such that no drop is allowed) the whole
+    output history must still satisfy the continuity rule recomputed with *those* thresholds."""
+    from vf import gen
+    rec = ctx.rec
+    f = np.linspace(0.04, 0.4, 14)
+    th = np.arange(0, 360, 30.0)
+    T = int(rng.integers(3, 6))
+    base = gen.spectrum(rng, f, th, "multimodal")[0]
+    A = np.array([base * (1 + 0.01 * k) for k in range(T)])
+    da = gen.make_da(A, f, th, ["time"], [T])
+    co = {"time": da.time}
+    w = xr.DataArray(np.full(T, 3.0), dims=["time"], coords=co)
+    wd = xr.DataArray(np.full(T, 10.0), dims=["time"], coords=co)
+    dp = xr.DataArray(np.full(T, 50.0), dims=["time"], coords=co)
+    which = str(rng.choice(["dfp_swell_source_distance", "ddpm_swell_max", "ddpm_sea_max", "defaults"]))
+    kw = {"dfp_swell_source_distance": {"dfp_swell_source_distance": 1e12}, "ddpm_swell_max": {"ddpm_swell_max": 1e-6},
+          "ddpm_sea_max": {"ddpm_sea_max": 1e-6, "ddpm_swell_max": 1e-6}, "defaults": {}}[which]
+    key = "ptm1_track|" + which
+    try:
+        out = da.spec.partition.ptm1_track(w, wd, dp, swells=3, **kw).compute()
+        ids = out["part_id"].transpose("part", "time").values
+        stats = out["efth"].spec.stats(["fp", "dpm"]).compute()
+        fp = stats["fp"].transpose("part", "time").values.astype("float64")
+        dpm = stats["dpm"].transpose("part", "time").values.astype("float64")
+        prob, amb = TR.check(fp, dpm, w.values, 3600.0, ids, int(out["npart_id"].values),
+                             ddpm_sea_max=kw.get("ddpm_sea_max", 30), ddpm_swell_max=kw.get("ddpm_swell_max", 20),
+                             distance=kw.get("dfp_swell_source_distance", 1e6))
+        carried = int(sum(len(set(ids[:, t][ids[:, t] >= 0]) & set(ids[:, t - 1][ids[:, t - 1] >= 0])) for t in range(1, T)))
+        if which == "defaults":
+            rec.note("ptm1_track_identifiers_carried_under_defaults", carried)
+        if prob is None or amb:
+            rec.ok("ptm1_track_params", key, sample={"carried": carried})
+        else:
+            rec.bad("ptm1_track_params", key, {"problem": prob[0], "data": prob[1], "kwargs": kw, "ids": ids}, "ptm1-track-ignores-a-threshold-argument" if which != "defaults" else "tracking:" + prob[0])
+    except Exception as e:
+        rec.bad("ptm1_track_params", key, {"raised": repr(e)[:300]}, "tracking-raises:" + type(e).__name__)
 
 
 def end_to_end(ctx, rng, xr):
